@@ -1,5 +1,6 @@
 """C10 — tenants are isolated (id mapping arithmetic in the server binary; MIR obligations on RPC bodies)."""
 from vlib.mo import *
+import re
 from vlib.runner import KH, run_kani_group, run_mir_obligations
 
 LEVEL = "other"
@@ -7,7 +8,7 @@ EXPLANATION = ("Kani/CBMC: pure 64-bit bit-vector queries over the real TenantId
                "(async RPC bodies rebuilt from their coroutine state machines): every data RPC resolves the tenant, enforces the rate limit and maps ids through the range-checked map_doc_id before any engine call; "
                "reserved keys are removed before the server-owned values are written; ownership metadata is read before a document is served, deleted or updated.")
 TRUSTED_BASE = ["Kani 0.68 MIR->goto translation", "CBMC 6.11 + CaDiCaL", "stub: std::fmt::format (Status message text)"]
-NOT_COVERED = ["end-to-end RPC sequences", "that the ownership comparison itself is correct (string compare of the stored index; data level)", "cache reuse across tenants through the running server", "/usage endpoint", "query_cache_scope collision-freeness (64-bit hash)",
+NOT_COVERED = ["end-to-end RPC sequences", "string equality of the ownership comparison at run time (its operands and its effect on control flow are decided by O10.4/ownership_test)", "cache reuse across tenants through the running server", "/usage endpoint", "query_cache_scope collision-freeness (64-bit hash)",
                "AuthManager::validate and sanitize_public_metadata (std HashMap iteration is beyond CBMC here: probe > 7 min)"]
 F = [("bin/kyrodb_server.rs", "to_global_doc_id"), ("bin/kyrodb_server.rs", "is_tenant_doc_id"), ("bin/kyrodb_server.rs", "to_local_doc_id")]
 HARNESSES = [
@@ -106,7 +107,99 @@ MOS = [
              precedes(RPC("delete"), call(r"= TieredEngine::get_metadata\(", name="engine.get_metadata (ownership check)"), call(r"= TieredEngine::delete\(", name="engine.delete")),
              precedes(RPC("update_metadata"), call(r"= TieredEngine::get_metadata\(", name="engine.get_metadata (ownership check)"), call(r"= TieredEngine::update_metadata\(", name="engine.update_metadata"))),
        functions=[("bin/kyrodb_server.rs", n) for n in ("query", "delete", "update_metadata")], target="kyrodb_server"),
+    MO("O10.4/ownership_test", "query / delete / update_metadata / bulk_query / build_search_response (search results): the ownership test compares the stored __tenant_idx__ with the caller's tenant index, the namespace test the stored namespace with the requested one, "
+       "and the engine operation is unreachable from a mismatch of either",
+       lambda F: allof(ownership_operands("query", r"= TieredEngine::query_with_source\("), ownership_operands("delete", r"= TieredEngine::delete\("),
+                       ownership_operands("update_metadata", r"= TieredEngine::update_metadata\("),
+                       ownership_operands("build_search_response", r"= KyroDBServiceImpl::sanitize_public_metadata\(", fname="KyroDBServiceImpl::build_search_response",
+                                          loop_head=r"= <IntoIter<(kyrodb_engine::)?SearchResult> as Iterator>::next\("),
+                       ownership_operands("bulk_query", r"= KyroDBServiceImpl::sanitize_public_metadata\(", loop_head=r"= <std::iter::Enumerate<IntoIter<Option<\(Vec<f32>, HashMap<String, String>, PointQueryTier\)>>> as Iterator>::next\(", clears=True))(F),
+       functions=[("bin/kyrodb_server.rs", n) for n in ("query", "delete", "update_metadata", "bulk_query", "build_search_response")], target="kyrodb_server"),
 ]
+
+
+def ownership_operands(name, engine_re, fname=None, loop_head=None, clears=False):
+    """query / delete / update_metadata: the ownership test compares the STORED `__tenant_idx__` value with the CALLER's
+    tenant index (as a string), the namespace test compares the stored `__namespace__` (default "") with the request's
+    namespace, and on a mismatch of either the engine operation is never reached."""
+    import vlib.mir as _M
+    from vlib.mirflow import origin as _o
+    f = fname or RPC(name)
+    ENG = call(engine_re, name="engine operation on the document" if fname is None else "document metadata handed to the client (sanitize_public_metadata)")
+
+    def run(F):
+        fc = FnCheck(F, f, containing=ENG)
+        if fc.fn is None:
+            return [fc.missing()]
+        fn = fc.fn
+        ti = field_index("bin/kyrodb_server.rs", "TenantContext", "tenant_index")
+        out = []
+        OWN = Arm(r"^call <Option<&String> as PartialEq>::ne$", {"otherwise"}, name="stored __tenant_idx__ != caller's tenant index")
+        NSP = Arm(r"^call <&str as PartialEq<String>>::ne\(", {"otherwise"}, name="stored namespace != requested namespace")
+        for arm in (OWN, NSP):
+            if not arm.switches(fn):
+                r = fc.reachable(ENG)
+                out.append(Result("violated" if r.verdict == "holds" else "inconclusive", "%s reaches %s without the test `%s`: a document of another tenant / namespace is served or modified" % (name, ENG.name, arm.name),
+                                  queries=r.queries, seconds=r.seconds, sample={"fn": fc.name, "kind": "NEVER", "missing_test": arm.name}))
+            elif clears:
+                # bulk_query keeps a `found` flag (data, not control): what is decided is that a mismatch wipes the item's
+                # metadata and embedding before anything else happens to it
+                out.append(fc.follows(arm, call(r"= HashMap::<String, String>::clear\(", name="metadata.clear()"), exit="any", exit_ev=call(loop_head, name="next item of the loop")))
+                out.append(fc.follows(arm, call(r"= Vec::<f32>::clear\(", name="embedding.clear()"), exit="any", exit_ev=call(loop_head, name="next item of the loop")))
+                out.append(fc.follows(arm, call(r"= HashMap::<String, String>::clear\(", name="metadata.clear()"), exit="any", exit_ev=ENG))
+            elif loop_head is not None:
+                # per item of a loop: from a mismatch, the metadata of THIS item is never handed out (the next item is fetched first)
+                out.append(fc.follows(arm, call(loop_head, name="next item of the loop"), exit="any", exit_ev=ENG))
+            else:
+                out.append(fc.never(ENG, frm=arm))
+        # operands of the ownership test
+        gets = {}
+        for b in fn.blocks.values():
+            if b.cleanup or b.kind != "call":
+                continue
+            from vlib.mirflow import short_ty as _st
+            if re.search(r"HashMap::<String, String>::get::<str>$", _st(b.callee or "")):
+                a = _M._split_top(b.args)
+                gets[b.dest] = _o(fn, a[1]) if len(a) > 1 else "?"
+        for b in fn.blocks.values():
+            if b.cleanup or b.kind != "call" or not re.search(r"<Option<&String> as PartialEq>::ne$", short(b.callee)):
+                continue
+            a = _M._split_top(b.args)
+            # left: &(_x = HashMap::get(meta, KEY))
+            m0 = re.match(r"^(?:move |copy )?(_\d+)$", a[0].strip())
+            key = "?"
+            if m0:
+                ds = fn.build_defs().get(m0.group(1)) or []
+                for (_b, _i, rhs) in ds:
+                    mm = re.match(r"^&(_\d+)$", rhs.strip())
+                    if mm and mm.group(1) in gets:
+                        key = gets[mm.group(1)]
+            right = _o(fn, a[1])
+            rr = right
+            for _ in range(4):
+                mm = re.search(r"Some\((?:copy|move) (_\d+)\)", rr)
+                if not mm:
+                    break
+                rr = _o(fn, mm.group(1))
+            okk = key == 'const "__tenant_idx__"'
+            okr = bool(re.search(r"call <u32 as ToString>::to_string", rr)) and ti is not None
+            if okr:
+                # the to_string argument is the caller's tenant_index field
+                for tb in fn.blocks.values():
+                    if not tb.cleanup and tb.kind == "call" and re.search(r"<u32 as ToString>::to_string$", short(tb.callee)):
+                        okr = okr and bool(re.search(r"TenantContext\)\}\)\.%d: u32\)$" % ti, _o(fn, tb.args)))
+            smp = {"fn": fc.name, "kind": "PROVENANCE", "stored_key": key, "compared_with": rr[:120]}
+            if okk and okr:
+                out.append(Result("holds", "ownership test: metadata[\"__tenant_idx__\"] vs tenant.tenant_index.to_string()", sample=smp))
+            else:
+                out.append(Result("violated", "%s decides ownership on metadata[%s] vs `%s`, expected metadata[\"__tenant_idx__\"] vs the caller's tenant_index" % (name, key, rr[:100]), sample=smp))
+        return out
+    return run
+
+
+def short(t):
+    from vlib.mirflow import short_ty
+    return re.sub(r"::<[^>]*>$", "", short_ty(t or ""))
 
 
 def _per_item_mapped(F):
